@@ -25,6 +25,28 @@ def is_nd(v):
     return isinstance(v, Abstract) and v.tag == "nd"
 
 
+def to_real_(v):
+    from ..pyvc.core import to_real
+    return to_real(v)
+
+
+def _arith(op, x, y):
+    return {"Add": lambda: x + y, "Sub": lambda: x - y, "Mult": lambda: x * y, "Div": lambda: x / y}[op]()
+
+
+def _cell_binop(op, a, b, shape):
+    ca, cb = getattr(a, "cell", None), getattr(b, "cell", None)
+    if ca is None or cb is None:
+        return None
+    ra, rb = len(a.shape), len(b.shape)
+
+    def cell(*ix):
+        xa = ca(*ix[len(ix) - ra:]) if ra else ca()
+        xb = cb(*ix[len(ix) - rb:]) if rb else cb()
+        return _arith(op, xa, xb)
+    return cell
+
+
 def size_of(shape):
     out = IntVal(1)
     for d in shape:
@@ -45,6 +67,8 @@ class NdContract(Contract):
     def _derive(self, v, shape=None, kind=None, prov=None, name=None, **extra):
         d = {k: val for k, val in v.__dict__.items() if k not in ("tag", "name", "shape", "kind", "prov")}
         d.update(extra)
+        if shape is not None and "cell" not in extra:
+            d["cell"] = None          # indexing changes with the shape; point-wise view is dropped unless re-supplied
         return Nd(name or v.name, v.shape if shape is None else shape, kind or v.kind, prov or v.prov, **d)
 
     def _squeeze(self, eng, st, v):
@@ -89,13 +113,24 @@ class NdContract(Contract):
                 return Nd(f"dot({a.name},{b.name})", a.shape, "ndarray", "ERASED")
             if ra == 0:
                 return Nd(f"dot({a.name},{b.name})", b.shape, "ndarray", "ERASED")
+            if ra == 2 and rb == 2:
+                eng.oblige(st, "dot_inner_dimensions_agree", same_dim(a.shape[1], b.shape[0]), "shape", node)
+                f2 = z3.Function(f"dot<{a.name}|{b.name}>", z3.IntSort(), z3.IntSort(), z3.RealSort())
+                return Nd(f"dot({a.name},{b.name})", (a.shape[0], b.shape[1]), "ndarray", "ERASED", dot=(a, b), cell=lambda i, j: f2(i, j))
             raise Unsupported("dot of higher-rank operands")
+        if name == "dot" and is_nd(recv) and args and is_nd(args[0]):
+            return self.on_call(eng, st, node, "numpy.dot", None, [recv, args[0]], {})
+        if name == "numpy.atleast_2d" and is_nd(a0) and len(a0.shape) == 2:
+            return a0
         if name in ("sum", "mean") and is_nd(recv):
             ax = kwargs.get("axis", args[0] if args else None)
+            base = getattr(recv, "base_name", recv.name)
             if ax is None:
-                return Nd(f"{name}({recv.name})", (), "ndarray", "ERASED", reduce=(name, None, recv))
+                f0 = z3.Function(f"{name}_all<{base}>", z3.RealSort())
+                return Nd(f"{name}({recv.name})", (), "ndarray", "ERASED", reduce=(name, None, recv), cell=lambda: f0())
             if ax == 0 and len(recv.shape) == 2:
-                return Nd(f"{name}({recv.name},axis=0)", (recv.shape[1],), "ndarray", "ERASED", reduce=(name, 0, recv))
+                f1 = z3.Function(f"{name}_col<{base}>", z3.IntSort(), z3.RealSort())
+                return Nd(f"{name}({recv.name},axis=0)", (recv.shape[1],), "ndarray", "ERASED", reduce=(name, 0, recv), cell=lambda j: f1(j))
             raise Unsupported(f"{name}(axis={ax})")
         if name == "len" and is_nd(a0):
             if not a0.shape:
@@ -186,9 +221,15 @@ class NdContract(Contract):
                     shape = a.shape
                 else:
                     raise Unsupported("broadcast of these ranks")
-                return Nd(f"({a.name}{op}{b.name})", shape, "ndarray", "ERASED", binop=(op, a, b))
+                return Nd(f"({a.name}{op}{b.name})", shape, "ndarray", "ERASED", binop=(op, a, b), cell=_cell_binop(op, a, b, shape))
             v = a if is_nd(a) else b
-            return self._derive(v, name=f"({v.name}{op}scalar)")
+            other = b if is_nd(a) else a
+            vc = getattr(v, "cell", None)
+            cell = None
+            if vc is not None and not isinstance(other, Abstract):
+                o = to_real_(other)
+                cell = (lambda *ix: _arith(op, vc(*ix), o)) if is_nd(a) else (lambda *ix: _arith(op, o, vc(*ix)))
+            return self._derive(v, name=f"({v.name}{op}scalar)", kind="ndarray", prov="ERASED", cell=cell)
         return NotImplemented
 
     def on_truth(self, eng, st, v):
